@@ -32,7 +32,7 @@ def sweep_impl(rep, tier, seed):
     pers = [period0, 0.2501, 0.2497]
     alphabet = [("dm", d) for d in dms] + [("p", p) for p in pers]
     depth = 3 if tier == "quick" else 4
-    for (nints, nbands, nbins) in ((3, 4, 16), (1, 2, 8)):
+    for (nints, nbands, nbins) in ((3, 4, 16), (1, 2, 8), (2, 1, 8)):  # incl. a single sub-band (TimeSeries.fold)
         data, hdr = mk(rng, nints, nbands, nbins, period0, dm0)
         final = {}
         for L in range(0, depth + 1):
@@ -75,7 +75,7 @@ def sweep_impl(rep, tier, seed):
 
 
 def sweep(tier, seed):
-    rep = Report(dict(alphabet="3 dms x 3 periods", depth=3 if tier == "quick" else 4, shapes=[(3, 4, 16), (1, 2, 8)]))
+    rep = Report(dict(alphabet="3 dms x 3 periods", depth=3 if tier == "quick" else 4, shapes=[(3, 4, 16), (1, 2, 8), (2, 1, 8)]))
     sweep_impl(rep, tier, seed)
     return rep
 
